@@ -51,6 +51,15 @@ KNOWN_ZERO_SIG = {"family": "v1", "codec": "track_data/beat_data",
                   "effect": "optional numeric field holding exactly zero is written as the absent encoding and reads back absent"}
 
 
+# model regenerated from the C++ sources + its equality with the hand model (see props/_implgen.py)
+from props import _implgen
+LEAN_MODULES = LEAN_MODULES + _implgen.LEAN_MODULES
+THEOREMS = THEOREMS + _implgen.THEOREMS_FOR[ID]
+ASSUMPTIONS = ASSUMPTIONS + _implgen.ASSUMPTIONS
+TRUSTED_EXTRA = list(globals().get("TRUSTED_EXTRA", [])) + _implgen.TRUSTED_EXTRA
+TRANSLATORS = dict(globals().get("TRANSLATORS", {}), **_implgen.TRANSLATORS)
+
+
 def must_roundtrip(kind, v):
     if not cd.format_can_hold(kind, v):
         return False
@@ -325,3 +334,4 @@ def tie(ctx):
 
 
 replay = cd.replay
+tie = _implgen.wrap_tie(tie)   # + regenerated model vs real library (translator validation)
